@@ -325,13 +325,12 @@ Definition field_general (n : name) : astr :=
   match ident with
   | [] => la "_"
   | _ => let ident := if leading_minus n then la "negative_" ++ ident else ident in
-         if astr_eqb ident (la "self") then la "self_"
+         if astr_eqb ident (la "self") || astr_eqb ident (la "crate") || astr_eqb ident (la "super") then ident ++ la "_"
          else if amem ident forbidden_identifiers then la "r#" ++ ident
          else prefix_if_digit US ident
   end.
 
-Definition known_result (r : astr) : bool :=
-  astr_eqb r (la "_") || astr_eqb r (la "r#crate") || astr_eqb r (la "r#super").
+Definition known_result (r : astr) : bool := astr_eqb r (la "_").
 
 Lemma forbidden_shapes : forallb (fun k => ident_shape (la k)) forbidden_identifiers = true.
 Proof. vm_compute. reflexivity. Qed.
@@ -360,7 +359,10 @@ Proof.
   assert (Hu : forallb (fun c => negb (is_upper c)) ident = true).
   { unfold ident. destruct (leading_minus n); [|exact Hu0]. rewrite forallb_app, Hu0. reflexivity. }
   clearbody ident.
-  destruct (astr_eqb ident (la "self")) eqn:Eself; [vm_compute; reflexivity|].
+  destruct (astr_eqb ident (la "self")) eqn:Eself; [apply astr_eqb_eq in Eself; subst ident; vm_compute; reflexivity|].
+  destruct (astr_eqb ident (la "crate")) eqn:Ecrate; [apply astr_eqb_eq in Ecrate; subst ident; vm_compute; reflexivity|].
+  destruct (astr_eqb ident (la "super")) eqn:Esuper; [apply astr_eqb_eq in Esuper; subst ident; vm_compute; reflexivity|].
+  cbn [orb].
   destruct (amem ident forbidden_identifiers) eqn:Ef.
   - (* keyword: raw identifier *)
     assert (Hs : ident_shape ident = true).
@@ -369,6 +371,7 @@ Proof.
     destruct (amem ident never_raw) eqn:En.
     + apply amem_never_raw_cases in En. destruct En as [->|[->|[->|[->| ->]]]];
         try (vm_compute; reflexivity); try (vm_compute in Eself; discriminate);
+        try (vm_compute in Ecrate; discriminate); try (vm_compute in Esuper; discriminate);
         try (vm_compute in Hu; discriminate); try (vm_compute in Hh; discriminate).
     + rewrite legal_raw by assumption. reflexivity.
   - rewrite legal_plain; [reflexivity| | |].
@@ -400,8 +403,8 @@ Proof.
     destruct (all_asc_ident (c :: raw)) eqn:E; auto. right. exists c, raw. auto. }
   destruct G as [->|[c [raw [E1 [E2 ->]]]]].
   - pose proof (field_general_ok n) as H. apply orb_true_iff in H. destruct H as [->| ->]; [reflexivity|].
-    simpl. apply orb_true_r.
-  - rewrite E1, E2. destruct (legal_ident (la "r#" ++ any_ascii (c :: raw))); simpl; [reflexivity|apply orb_true_r].
+    simpl. first [reflexivity | apply orb_true_r].
+  - rewrite E1, E2. destruct (legal_ident (la "r#" ++ any_ascii (c :: raw))); simpl; first [reflexivity | apply orb_true_r].
 Qed.
 
 (* ---------------------------------------------------------------- C09: type names *)
